@@ -41,7 +41,7 @@ Proof.
   unfold rd in Rd. apply orb_true_iff in Rd. destruct Rd as [Rd|Rd].
   - rewrite Es in H1. congruence.
   - apply existsb_exists in Rd. destruct Rd as [r [Hr Hin]].
-    destruct (sym_locU_sound X A asz HE F (cv c) (cs c) (i_args i) r s k HF Hin) as [Sp Ad'].
+    destruct (sym_loc_sound X A asz HE F (cv c) (cs c) (i_args i) r s k HF Hin) as [Sp Ad'].
     rewrite forallb_forall in H2. specialize (H2 r Hr). rewrite Sp, Es, sp_eqb_refl in H2. cbn [negb orb] in H2.
     exact (locs_disjoint_sound X A asz HE _ _ k H2 Ad' Ad).
 Qed.
